@@ -76,7 +76,7 @@ fn compile(p: &Pkg) -> Result<Package<NoCtx>, String> {
         children: vec![],
     };
     let spec = FileSpec::Directory(
-        file("pkg.roto", "pkg", &p.root),
+        file(&format!("{}.roto", p.root_module), p.root_module, &p.root),
         vec![FileSpec::File(file("sub.roto", "sub", &p.sub))],
     );
     match catch(|| FileTree::file_spec(spec).compile(rt)) {
@@ -153,10 +153,12 @@ fn dec(sub: u64) -> (usize, usize, u64) {
     ((sub >> 40) as usize, ((sub >> 4) & 0xf_ffff_ffff) as usize, sub & 0xf)
 }
 
-fn case_json(probe: &dyn Probe, t: &Target, action: &str) -> Value {
+fn case_json(root_module: &str, probe: &dyn Probe, t: &Target, action: &str) -> Value {
     let (pp, pr) = (probe.params(), probe.ret());
     json!({
         "kind": t.kind,
+        "root_module": root_module,
+        "requested_string_view": pp.iter().chain([&pr]).any(has_view),
         "action": action,
         "name": t.name,
         "item": t.src,
@@ -169,6 +171,17 @@ fn case_json(probe: &dyn Probe, t: &Target, action: &str) -> Value {
         "expect": format!("{:?}", t.expect),
         "how": "host::runtime(); FileTree::file_spec(pkg.roto [+ sub.roto]).compile(&rt); pkg.get_function::<requested>(name)",
     })
+}
+
+/// does the type contain one of the string views?
+fn has_view(t: &T) -> bool {
+    use ty::Leaf;
+    match t {
+        T::L(x) => matches!(x, Leaf::Lines | Leaf::Bytes | Leaf::Chars),
+        T::Opt(x) | T::List(x) => has_view(x),
+        T::Res(a, b) | T::Ver(a, b) => has_view(a) || has_view(b),
+        _ => false,
+    }
 }
 
 fn err_category(msg: &str) -> &'static str {
@@ -200,15 +213,24 @@ fn table_inferred() -> Table {
 enum Fam {
     Main,
     Inferred,
+    /// string views: Rust types that can only be inferred, not named (audit V1)
+    Views,
+    /// the name of the root module, `pkg` or `main` (audit V3); one unit per name
+    Roots,
     /// sequences of packages inside one process (`hist.rs`)
     History,
 }
+
+const FAMS: [Fam; 5] = [Fam::Main, Fam::Inferred, Fam::Views, Fam::Roots, Fam::History];
 
 impl Fam {
     fn ppu(self) -> usize {
         match self {
             Fam::Main => PROBES_PER_UNIT,
             Fam::Inferred => 24,
+            // few enough that a unit stays below vcore's 200 literal violations
+            Fam::Views => 4,
+            Fam::Roots => 40,
             Fam::History => 1,
         }
     }
@@ -216,6 +238,8 @@ impl Fam {
         match self {
             Fam::Main => "main",
             Fam::Inferred => "inferred",
+            Fam::Views => "views",
+            Fam::Roots => "roots",
             Fam::History => "history",
         }
     }
@@ -223,35 +247,56 @@ impl Fam {
         match self {
             Fam::Main => table(tier),
             Fam::Inferred => table_inferred(),
+            Fam::Views => probe::views_table(),
+            // fn(L) and fn() -> L for the 20 leaves
+            Fam::Roots => {
+                let mut v = table(Tier::Quick);
+                v.truncate(40);
+                v
+            }
             Fam::History => hist::table(),
         }
     }
-    fn package(self, tier: Tier) -> Pkg {
+    fn package(self, tier: Tier, unit: usize) -> Pkg {
         match self {
             Fam::Main => genr::package(tier),
             Fam::Inferred => genr::inferred_package(),
-            Fam::History => Pkg { root: String::new(), sub: String::new(), targets: vec![] },
+            Fam::Views => genr::views_package(),
+            Fam::Roots => genr::roots_package(genr::ROOT_NAMES[unit % genr::ROOT_NAMES.len()]),
+            Fam::History => Pkg { root_module: "pkg", root: String::new(), sub: String::new(), targets: vec![] },
         }
     }
     fn units(self, tier: Tier) -> usize {
-        if self == Fam::History {
-            return hist::units(tier);
+        match self {
+            Fam::History => hist::units(tier),
+            Fam::Roots => genr::ROOT_NAMES.len(),
+            _ => self.table(tier).len().div_ceil(self.ppu()),
         }
-        self.table(tier).len().div_ceil(self.ppu())
+    }
+    /// probes [lo, hi) of the family's table that unit `unit` requests
+    fn probe_range(self, unit: usize, n: usize) -> (usize, usize) {
+        match self {
+            Fam::Roots => (0, n),
+            _ => (unit * self.ppu(), (unit * self.ppu() + self.ppu()).min(n)),
+        }
     }
 }
 
 /// global unit number -> (family, unit within the family)
 fn locate(tier: Tier, unit: usize) -> (Fam, usize) {
-    let n = Fam::Main.units(tier);
-    let m = Fam::Inferred.units(tier);
-    if unit < n {
-        (Fam::Main, unit)
-    } else if unit < n + m {
-        (Fam::Inferred, unit - n)
-    } else {
-        (Fam::History, unit - n - m)
+    let mut u = unit;
+    for f in FAMS {
+        let n = f.units(tier);
+        if u < n {
+            return (f, u);
+        }
+        u -= n;
     }
+    (Fam::History, u)
+}
+
+fn first_unit(tier: Tier, fam: Fam) -> usize {
+    FAMS.iter().take_while(|f| **f != fam).map(|f| f.units(tier)).sum()
 }
 
 struct C04;
@@ -261,7 +306,7 @@ impl Check for C04 {
         "C04"
     }
     fn units(&self, cfg: &Cfg) -> usize {
-        Fam::Main.units(cfg.tier) + Fam::Inferred.units(cfg.tier) + Fam::History.units(cfg.tier)
+        FAMS.iter().map(|f| f.units(cfg.tier)).sum()
     }
 
     fn run_unit(&self, unit: usize, cx: &mut Cx) {
@@ -273,7 +318,7 @@ impl Check for C04 {
         }
         let ppu = fam.ppu();
         let probes = fam.table(tier);
-        let p = fam.package(tier);
+        let p = fam.package(tier, unit);
         if !cx.case(SUB_SETUP) {
             return;
         }
@@ -312,8 +357,9 @@ impl Check for C04 {
         }
 
         let mut samples = 0;
-        let lo = unit * ppu;
-        let hi = (lo + ppu).min(probes.len());
+        let _ = ppu;
+        let (lo, hi) = fam.probe_range(unit, probes.len());
+        let root_module = p.root_module;
         for pi in lo..hi {
             let probe = &*probes[pi];
             let (pp, pr) = (probe.params(), probe.ret());
@@ -343,7 +389,7 @@ impl Check for C04 {
                 if call_only {
                     if let Ok(Ok(Some(call))) = got {
                         if cx.case(sub_call) {
-                            run_call(cx, probe, t, sub_call, call);
+                            run_call(cx, root_module, probe, t, sub_call, call);
                         }
                     }
                     continue;
@@ -365,7 +411,7 @@ impl Check for C04 {
                         cx.violation(
                             "panic",
                             sub_get,
-                            case_json(probe, t, "get"),
+                            case_json(root_module, probe, t, "get"),
                             json!(if equal { "Ok(handle)" } else { "Err(..), no panic" }),
                             json!(format!("panic: {panic}")),
                         );
@@ -381,7 +427,7 @@ impl Check for C04 {
                             cx.violation(
                                 "refused",
                                 sub_get,
-                                case_json(probe, t, "get"),
+                                case_json(root_module, probe, t, "get"),
                                 json!("Ok(handle): the requested type is the function's true signature"),
                                 json!(format!("Err: {}", msg.trim_end())),
                             );
@@ -397,7 +443,7 @@ impl Check for C04 {
                             // whatever type the implementation chose, the handle must work
                             if let Some(call) = call {
                                 if cx.case(sub_call) {
-                                    run_call(cx, probe, t, sub_call, call);
+                                    run_call(cx, root_module, probe, t, sub_call, call);
                                 }
                             }
                             continue;
@@ -407,7 +453,7 @@ impl Check for C04 {
                             cx.violation(
                                 "accepted",
                                 sub_get,
-                                case_json(probe, t, "get"),
+                                case_json(root_module, probe, t, "get"),
                                 json!("Err(..): the requested type is not the function's signature"),
                                 json!("Ok(handle)"),
                             );
@@ -419,11 +465,11 @@ impl Check for C04 {
                         }
                         if samples < 2 && ti % 7 == 3 {
                             samples += 1;
-                            cx.sample(case_json(probe, t, "get"));
+                            cx.sample(case_json(root_module, probe, t, "get"));
                         }
                         if let Some(call) = call {
                             if cx.case(sub_call) {
-                                run_call(cx, probe, t, sub_call, call);
+                                run_call(cx, root_module, probe, t, sub_call, call);
                             }
                         }
                     }
@@ -442,13 +488,14 @@ impl Check for C04 {
         }
         let (pi, ti, action) = dec(sub);
         let probes = fam.table(cfg.tier);
-        let p = fam.package(cfg.tier);
-        let Some(probe) = probes.get(unit * fam.ppu() + pi) else {
+        let p = fam.package(cfg.tier, unit);
+        let root_module = p.root_module;
+        let Some(probe) = probes.get(fam.probe_range(unit, probes.len()).0 + pi) else {
             return json!({"kind": "?", "sub": sub.to_string()});
         };
         let action = if action == 0 { "get" } else { "call" };
         match p.targets.get(ti) {
-            Some(t) => case_json(&**probe, t, action),
+            Some(t) => case_json(root_module, &**probe, t, action),
             None => json!({
                 "kind": "module-key", "action": action,
                 "dyn_index": ti - p.targets.len(),
@@ -465,12 +512,11 @@ impl Check for C04 {
         for (k, set) in &agg.sets {
             let Some(rest) = k.strip_prefix("ok-under/") else { continue };
             let (fam, name) = match rest.split_once('/') {
-                Some(("inferred", n)) => (Fam::Inferred, n),
-                Some((_, n)) => (Fam::Main, n),
+                Some((tag, n)) => (FAMS.iter().copied().find(|f| f.tag() == tag).unwrap_or(Fam::Main), n),
                 None => (Fam::Main, rest),
             };
             let probes = fam.table(cfg.tier);
-            let first_unit = if fam == Fam::Main { 0 } else { Fam::Main.units(cfg.tier) };
+            let first_unit = first_unit(cfg.tier, fam);
             if set.len() > 1 {
                 let mut idx: Vec<u64> = set.iter().copied().collect();
                 idx.sort();
@@ -494,8 +540,29 @@ impl Check for C04 {
     }
 
     fn matches(&self, f: &Finding, v: &Violation) -> bool {
-        let _ = (f, v);
-        false
+        let c = &v.case;
+        let obs = v.observed.as_str().unwrap_or("");
+        match f.matcher.as_str() {
+            // audit V1: a request that mentions a string view (a leaf type
+            // missing from the name table of check_roto_type) reaches the
+            // `_ => panic!()` arm, whether it is the true signature or not
+            "string_view_leaf_panics" => {
+                v.class == "panic"
+                    && c["requested_string_view"] == true
+                    && c["action"] == "get"
+                    && obs.contains("explicit panic")
+                    && obs.contains("codegen/check.rs")
+            }
+            // audit V3 (twin of C13-module-names-unvalidated): get_function
+            // prepends `pkg.` whatever the root module is called
+            "root_module_not_pkg" => {
+                v.class == "refused"
+                    && c["kind"] == "root"
+                    && c["root_module"].as_str().is_some_and(|r| r != "pkg")
+                    && obs.contains("does not exist")
+            }
+            _ => false,
+        }
     }
 
     fn meta(&self, cfg: &Cfg) -> Meta {
@@ -503,10 +570,12 @@ impl Check for C04 {
         let pg = ty::probe_grammar(cfg.tier);
         let p = genr::package(cfg.tier);
         Meta {
-            rule: "every target (a name + the signature the generator knows it has, or 'nothing') x every Rust function type of the probe table, requested through Package::get_function; Ok iff parameter lists and return types are structurally equal descriptors; never a panic; handles obtained on the depth<=1 diagonal are called once. Script side: p_S/r_S for every S of the script grammar (quick: 132 G1 types + all 456 depth-2 nestings over the 6-leaf set; thorough: G1 + every type of depth <= 2 over the 6-leaf set with at most one non-leaf argument per binary constructor), 57 filtermaps with pinned payloads + 40 with payloads inferred from unannotated literals, 38 arity functions, tests, script-declared and shadowing types, a submodule. Rust side: fn(R) and fn() -> R for every R of the probe grammar (quick: G1 + the 24 types U<W<L>>, U, W in {Option, List}; thorough: G1 + 96 depth-2 types), 36 arity signatures, types unknown to the runtime. Second family of units (inferred payloads): a package of filtermaps for every (accept kind, reject kind, sides used) combination over 20 payload kinds built only from unannotated literals (5, -5, 5 + 1, 2 * 3, if, let-bound, 1.5, -1.5, Option.Some(..), [..], { a: 5 }, plus true and ()), with pinned controls (suffix, annotated let, declared return type, parameter), requested as fn() -> Verdict<A, R> for (A, R) in ALL36 x TRUE7, TRUE7 x ALL36 and NUM10 x NUM10 (ALL36 = 8 integer types, f32, f64, bool, (), Option of each, List of each; TRUE7 = i32, f64, Option/List of these, ()), and fn(u8) -> Verdict<u8, X>; exactly the signature with {integer} = i32 and {float} = f64 is handed out. Third family (histories): 95 one-function package variants that differ in one type only (filtermap accept / reject payload, parameter, return value, both; 16 built-in types and the registered type Thing that three runtimes bind to three Rust types); every ordered pair within a group and triples with a third package in between are compiled one after another in one fresh process, and after each compilation the true signatures of all variants seen so far are requested (foreign ones first), then the older packages are asked again; Ok iff the requested signature is the true signature of the package asked, whatever happened before. Names derived from module keys that are not script functions (generated helpers) are requested under the flat signatures only. A pair is non-trivial when the name designates a script function and the requested type has the same number of parameters (at least one type comparison decides the outcome)".into(),
+            rule: "every target (a name + the signature the generator knows it has, or 'nothing') x every Rust function type of the probe table, requested through Package::get_function; Ok iff parameter lists and return types are structurally equal descriptors; never a panic; handles obtained on the depth<=1 diagonal are called once. Script side: p_S/r_S for every S of the script grammar (quick: 132 G1 types + all 456 depth-2 nestings over the 6-leaf set; thorough: G1 + every type of depth <= 2 over the 6-leaf set with at most one non-leaf argument per binary constructor), 57 filtermaps with pinned payloads + 40 with payloads inferred from unannotated literals, 38 arity functions, tests, script-declared and shadowing types, a submodule. Rust side: fn(R) and fn() -> R for every R of the probe grammar (quick: G1 + the 24 types U<W<L>>, U, W in {Option, List}; thorough: G1 + 96 depth-2 types), 36 arity signatures, types unknown to the runtime. Second family of units (inferred payloads): a package of filtermaps for every (accept kind, reject kind, sides used) combination over 20 payload kinds built only from unannotated literals (5, -5, 5 + 1, 2 * 3, if, let-bound, 1.5, -1.5, Option.Some(..), [..], { a: 5 }, plus true and ()), with pinned controls (suffix, annotated let, declared return type, parameter), requested as fn() -> Verdict<A, R> for (A, R) in ALL36 x TRUE7, TRUE7 x ALL36 and NUM10 x NUM10 (ALL36 = 8 integer types, f32, f64, bool, (), Option of each, List of each; TRUE7 = i32, f64, Option/List of these, ()), and fn(u8) -> Verdict<u8, X>; exactly the signature with {integer} = i32 and {float} = f64 is handed out. Views family (audit V1): the three string views StringLines/StringBytes/StringChars, whose Rust types are inferred from the public RotoString::lines/bytes/chars and never named, as value / Option / List in parameter and return position (21 probes + 9 nameable controls) x functions that really take / return them and mismatching ones. Roots family (audit V3): a small package whose root module is called pkg or main (FileTree::file_spec), names relative to the root. Third family (histories): 95 one-function package variants that differ in one type only (filtermap accept / reject payload, parameter, return value, both; 16 built-in types and the registered type Thing that three runtimes bind to three Rust types); every ordered pair within a group and triples with a third package in between are compiled one after another in one fresh process, and after each compilation the true signatures of all variants seen so far are requested (foreign ones first), then the older packages are asked again; Ok iff the requested signature is the true signature of the package asked, whatever happened before. Names derived from module keys that are not script functions (generated helpers) are requested under the flat signatures only. A pair is non-trivial when the name designates a script function and the requested type has the same number of parameters (at least one type comparison decides the outcome)".into(),
             assumptions: vec![
                 "the Rust-side descriptor of a type is derived by the harness's own Desc trait, the script-side descriptor by the generator; neither reads roto's TypeRegistry".into(),
-                "Rust types that implement roto::Value but are not nameable outside the crate (StringBytes, StringChars, StringLines, DynVal, VTable, ErasedList) cannot be requested through the public API and are not enumerated".into(),
+                "StringLines, StringBytes and StringChars cannot be named outside roto but can be requested with the type inferred from RotoString::lines/bytes/chars (views family); DynVal, VTable and ErasedList are returned by no public function and are not enumerated".into(),
+                "the signature of a filtermap is inferred package-wide: another item that calls it and pins its payload types (`fn g() -> Verdict[u8, String] { b() }`) changes the filtermap's true signature, also on a side it never uses itself; the oracle uses the package-wide type (audit V4, by design)".into(),
+                "a function of a package is named relative to the root module, whatever that module is called".into(),
                 "an unannotated integer literal that nothing else constrains has type i32 and a float literal f64 at the boundary, because that is what the lowering fixes them to (typechecker/info.rs); the host cannot pick another width".into(),
                 "payloads whose type argument nothing determines (`accept Option.None`, `accept []`) are skipped for the Ok/Err oracle; they must not panic and must be retrievable under one Rust type at most".into(),
                 "the full 36 x 36 cross of Verdict<A, R> would be 1296 instantiations (~30 s of rustc); the table has every A against the 7 types a payload can really have, the converse, and the 10 x 10 numeric cross (519 probes)".into(),
@@ -628,7 +697,7 @@ fn inferred_bounds() -> Value {
     })
 }
 
-fn run_call(cx: &mut Cx, probe: &dyn Probe, t: &Target, sub_call: u64, call: Box<dyn FnOnce()>) {
+fn run_call(cx: &mut Cx, root_module: &str, probe: &dyn Probe, t: &Target, sub_call: u64, call: Box<dyn FnOnce()>) {
     cx.transitions(1);
     cx.count("calls", 1);
     match catch(call) {
@@ -640,7 +709,7 @@ fn run_call(cx: &mut Cx, probe: &dyn Probe, t: &Target, sub_call: u64, call: Box
             cx.violation(
                 "call-panic",
                 sub_call,
-                case_json(probe, t, "call"),
+                case_json(root_module, probe, t, "call"),
                 json!("the call returns"),
                 json!(format!("panic: {panic}")),
             );
@@ -682,7 +751,7 @@ fn main() {
             if t.expect == Expect::Nothing || t.src.starts_with("sub.roto") || t.kind == "alien" {
                 continue;
             }
-            if let Err(e) = compile(&Pkg { root: t.src.clone(), sub: String::new(), targets: vec![] }) {
+            if let Err(e) = compile(&Pkg { root_module: "pkg", root: t.src.clone(), sub: String::new(), targets: vec![] }) {
                 bad += 1;
                 println!("{}\n    {}", t.src, e.lines().next().unwrap_or(""));
             }
@@ -694,7 +763,7 @@ fn main() {
         // developer aid: compile (root file, sub file) and list the module keys
         let root = std::fs::read_to_string(&path).unwrap();
         let sub = std::fs::read_to_string(format!("{path}.sub")).unwrap_or_default();
-        match compile(&Pkg { root, sub, targets: vec![] }) {
+        match compile(&Pkg { root_module: "pkg", root, sub, targets: vec![] }) {
             Ok(mut pkg) => println!("compiled: {:?}", module_keys(&mut pkg)),
             Err(e) => println!("COMPILE FAILED: {e}"),
         }
